@@ -415,16 +415,18 @@ class WorkerPool:
     self.wait_until_alive()
     worker = None
     start_time = time.time()
-    while worker is None:
-      worker = self.next_idle_worker(maybe_acquire=True)
-      time.sleep(0)
-      if time.time() - start_time > 180:
-        raise ValueError('No worker is available.')
-    # Always set blocking to True as run is blocking.
-    task = Task.maybe_as_task(task).set(blocking=True)
-    result = worker.submit(task).result()
-    worker.release()
-    return result
+    try:
+      while worker is None:
+        worker = self.next_idle_worker(maybe_acquire=True)
+        time.sleep(0)
+        if time.time() - start_time > 180:
+          raise ValueError('No worker is available.')
+      # Always set blocking to True as run is blocking.
+      task = Task.maybe_as_task(task).set(blocking=True)
+      return worker.submit(task).result()
+    finally:
+      # Also releases the workers acquired while looking for an idle one.
+      self.release_all()
 
   def iterate(
       self,
